@@ -71,6 +71,9 @@ func TestVerifReplay(t *testing.T) {
 			}
 		}
 	}
+	for _, k := range cfg.Replay.NativeInterceptSkip {
+		delete(icpt, k)
+	}
 	if len(icpt) > 0 && !cfg.Replay.NoIntercept {
 		extra, err := nativeInterceptOverlay(icpt, repl, tmp)
 		if err != nil {
@@ -209,6 +212,9 @@ func TestVerifTrace(t *testing.T) {
 	}
 	for r, v := range cfg.Replay.Overlay {
 		repl[filepath.Join(*repoDir, r)] = filepath.Join(*verifDir, v)
+	}
+	for _, k := range cfg.Replay.NativeInterceptSkip {
+		delete(icpt, k)
 	}
 	if len(icpt) > 0 && !cfg.Replay.NoIntercept {
 		extra, err := nativeInterceptOverlay(icpt, repl, tmp)
